@@ -25,6 +25,8 @@ func init() {
 			{ID: "C15.R6", Floor: 8, Run: c03r3, Text: "table selection by activity, not by length (= C03.R3): after Reset tables exist but are empty; filters registered then must still receive them"},
 			{ID: "C15.R7", Floor: 6, Run: resetMustWrite, Text: "reset on every path: each run-state field that Reset resets (R1) is written on every path of Reset to a normal return (must-flow over Reset; inside callees the write is may)"},
 			{ID: "C15.R8", Floor: 1, Run: resourceTableSizedOnce, Text: "the resource table is sized once: Resources.resources is assigned only by the constructor; reset clears elements in place"},
+			{ID: "C15.R9", Floor: 1, Run: deactivateOnlyOnRetire, Text: "a table is marked inactive only by the retiring method (which also removes it from the target map and pushes its slot to the free list) (Reset keeps zero-target tables active)"},
+			{ID: "C15.R10", Floor: 1, Run: resetNoPreconditionPanics, Text: "Reset cannot fail on state: after its lock test World.Reset reaches no explicit panic other than container invariants (call graph)"},
 		},
 	})
 }
